@@ -119,11 +119,15 @@ def run_case(case, ctx):
                                                 (isinstance(compress, tuple) and compress[0] in ("zlib", "gzip") and (compress[1] or 3) <= 3)):
                 compress = rng.choice([0, 1, 3, ("gzip", 1), "zlib"])
             protocol = rng.choice([None, 0, 1, 2, 3, 4, 5])
-            target = rng.choice(["path", "path", "path", "Path", "file", "bytesio", "reused-file", "reused-bytesio"])
+            target = rng.choice(["path", "path", "path", "Path", "file", "bytesio", "reused-file", "reused-bytesio", "write-only-sink"])
             if klass in ("huge-run",) or klass.startswith("big"):
                 target = rng.choice(["path", "path", "Path", "file", "bytesio"])
+            if target == "write-only-sink" and "arrays" in klass:
+                target = "bytesio"      # array data is padded for alignment, which needs tell(): a bare sink is not a target for arrays
             ext = rng.choice(EXTS)
             load_from = rng.choice(["path", "file", "bytesio"]) if target in ("path", "Path", "file") else "bytesio"
+            if target == "write-only-sink":
+                load_from = "bytesio"
             if target.startswith("reused"):
                 load_from = "same-object"
             desc = dict(object=can[:300], klass=klass, compress=compress, protocol=protocol, target=target, ext=ext, load_from=load_from)
@@ -142,6 +146,20 @@ def run_case(case, ctx):
                     elif target == "file":
                         with open(path, "wb") as f:
                             joblib.dump(obj, f, compress=compress, protocol=protocol)
+                    elif target == "write-only-sink":
+                        # dump() takes anything with a write() method for a file object: a sink that only collects what it is given
+                        class Sink:
+                            def __init__(self):
+                                self.parts = []
+
+                            def write(self, b):
+                                self.parts.append(bytes(b))
+                                return len(b)
+
+                        sink = Sink()
+                        joblib.dump(obj, sink, compress=compress, protocol=protocol)
+                        raw = b"".join(sink.parts)
+                        ctx.count("dumps_to_a_write_only_sink")
                     elif target.startswith("reused"):
                         # the target already holds longer, older content and is overwritten from its start: what follows the
                         # new dump is old data - junk, another compressor's magic number, or a complete older dump
@@ -185,7 +203,7 @@ def run_case(case, ctx):
                         bio = io.BytesIO()
                         joblib.dump(obj, bio, compress=compress, protocol=protocol)
                         raw = bio.getvalue()
-                    if target not in ("bytesio",) and not target.startswith("reused"):
+                    if target not in ("bytesio", "write-only-sink") and not target.startswith("reused"):
                         with open(path, "rb") as f:
                             raw = f.read()
                     if load_from == "same-object":
